@@ -39,8 +39,8 @@ theorem gen_refract (sqrt : K → K) (n n' : K) (S r : V3 K) :
     Generated.C19.refract sqrt n n' S r = Model.C19.refract sqrt n n' S r := by
   simp only [Generated.C19.refract, Model.C19.refract]
 
-/-- `raytrace` hands `reflect` and `refract` the vector returned by `intersect` (the surface gradient) or a
-positive multiple of it -/
+/-- `raytrace` hands `reflect` and `refract` exactly the vector returned by `intersect`, i.e. the un-normalised
+surface gradient `(−F_x, −F_y, 1)` (so both formulas must cope with a normal of any length) -/
 theorem gen_call_normals (sqrt : K → K) (g : V3 K) :
     refractCallNormal sqrt g = g ∧ reflectCallNormal sqrt g = g := by
   constructor <;> simp only [refractCallNormal, reflectCallNormal]
@@ -155,7 +155,8 @@ theorem refract_unit (sqrt : K → K) (hs : ∀ x, 0 ≤ x → sqrt x * sqrt x =
   exact (refract_core n n' _ S r hr hS hn' (hs _ hrad)).1
 
 /-- Snell's law in vector form, `n' (S' × r) = n (S × r)`: the refracted ray lies in the plane of incidence and
-`n' sin i' = n sin i`; and `S'·r = √radicand ≥ 0`, i.e. the ray continues to the far side of the surface -/
+`n' sin i' = n sin i`; and `S'·r = √radicand` (`≥ 0` for a non-negative square root: the refracted ray leaves on the
+side the normal vector points to) -/
 theorem refract_snell (sqrt : K → K) (hs : ∀ x, 0 ≤ x → sqrt x * sqrt x = x) (n n' : K) (S r : V3 K)
     (hr : r ≠ ⟨0, 0, 0⟩) (hS : V3.dot S S = 1) (hn' : n' ≠ 0) (hrad : 0 ≤ radicand n n' S r) :
     V3.smul n' (V3.cross (gRefract sqrt n n' S r) r) = V3.smul n (V3.cross S r) ∧
